@@ -35,7 +35,8 @@ type C13Case struct {
 	Clients  []C13Client `json:"clients"`
 	InPlace  bool        `json:"inplace"`          // filters compact the slice they are handed in place (user code may)
 	Repeat   int         `json:"repeat,omitempty"` // every client runs its request list this many more times (bursts of concurrent lists)
-	NilOut   bool        `json:"nilout,omitempty"` // filters build their result with append on a nil slice: a caller admitted to nothing gets a nil slice back
+	NilOut   bool        `json:"nilout,omitempty"`
+	NoFilter int         `json:"nofilter,omitempty"` // bit mask of the registries that have NO list filter configured: 1 tools, 2 prompts, 4 resources // filters build their result with append on a nil slice: a caller admitted to nothing gets a nil slice back
 }
 
 func genC13(t *rapid.T) C13Case {
@@ -54,6 +55,9 @@ func genC13(t *rapid.T) C13Case {
 		c.Clients = append(c.Clients, cl)
 	}
 	c.NilOut = rapid.Bool().Draw(t, "nilout")
+	if rapid.IntRange(0, 2).Draw(t, "somefilters") == 0 {
+		c.NoFilter = rapid.IntRange(1, 7).Draw(t, "nofilter")
+	}
 	if c.Mode != ModeLegacy && rapid.IntRange(0, 5).Draw(t, "burst") == 0 {
 		c.Repeat = rapid.SampledFrom([]int{20, 60}).Draw(t, "repeat")
 	}
@@ -164,12 +168,30 @@ func execC13(c C13Case) *Failure {
 	nfuncs := c.CtxFuncs
 	if c.Mode == ModeLegacy {
 		nfuncs = 1
-		opt.SSEOpts = []mcp.SSEOption{mcp.WithSSEContextFunc(ctxFunc(0)), mcp.WithSSEToolListFilter(toolFilter), mcp.WithSSEPromptListFilter(promptFilter), mcp.WithSSEResourceListFilter(resFilter)}
+		opt.SSEOpts = []mcp.SSEOption{mcp.WithSSEContextFunc(ctxFunc(0))}
+		if c.NoFilter&1 == 0 {
+			opt.SSEOpts = append(opt.SSEOpts, mcp.WithSSEToolListFilter(toolFilter))
+		}
+		if c.NoFilter&2 == 0 {
+			opt.SSEOpts = append(opt.SSEOpts, mcp.WithSSEPromptListFilter(promptFilter))
+		}
+		if c.NoFilter&4 == 0 {
+			opt.SSEOpts = append(opt.SSEOpts, mcp.WithSSEResourceListFilter(resFilter))
+		}
 	} else {
 		for i := 0; i < nfuncs; i++ {
 			opt.ServerOpts = append(opt.ServerOpts, mcp.WithHTTPContextFunc(ctxFunc(i)))
 		}
-		opt.ServerOpts = append(opt.ServerOpts, mcp.WithToolListFilter(toolFilter), mcp.WithPromptListFilter(promptFilter), mcp.WithResourceListFilter(resFilter),
+		if c.NoFilter&1 == 0 {
+			opt.ServerOpts = append(opt.ServerOpts, mcp.WithToolListFilter(toolFilter))
+		}
+		if c.NoFilter&2 == 0 {
+			opt.ServerOpts = append(opt.ServerOpts, mcp.WithPromptListFilter(promptFilter))
+		}
+		if c.NoFilter&4 == 0 {
+			opt.ServerOpts = append(opt.ServerOpts, mcp.WithResourceListFilter(resFilter))
+		}
+		opt.ServerOpts = append(opt.ServerOpts,
 			mcp.WithMiddleware(func(next mcp.HandlerFunc) mcp.HandlerFunc {
 				return func(ctx context.Context, req *mcp.JSONRPCRequest) (mcp.JSONRPCMessage, error) {
 					// the middleware stores what it sees where the handler can compare it
@@ -363,9 +385,10 @@ func execC13(c C13Case) *Failure {
 					return Failf("C13/notification-sender", "%s: no notification sender in the handler's context", where)
 				}
 			default:
+				unfiltered := (cr.req.Kind == "listtools" && c.NoFilter&1 != 0) || (cr.req.Kind == "listprompts" && c.NoFilter&2 != 0) || (cr.req.Kind == "listres" && c.NoFilter&4 != 0)
 				var want []string
 				for _, n := range names {
-					if admits(cls, n) {
+					if unfiltered || admits(cls, n) {
 						if cr.req.Kind == "listres" {
 							want = append(want, "file:///"+n)
 						} else {
@@ -373,7 +396,7 @@ func execC13(c C13Case) *Failure {
 						}
 					}
 				}
-				if cr.req.Kind == "listtools" && admits(cls, "pub-echo") {
+				if cr.req.Kind == "listtools" && (unfiltered || admits(cls, "pub-echo")) {
 					want = append(want, "pub-echo")
 				}
 				got := append([]string(nil), cr.list...)
